@@ -383,3 +383,71 @@ func VH23d_netlisten() {
 	verif.Assert(verif.LiveGoroutines() == 0, "C10/ws/goroutines-left-after-close")
 	verif.Reach("closed")
 }
+
+// VH23e_fanout: one message goes out to two WebSocket peers at once (the patterns that broadcast hand every
+// connection's sender goroutine a reference to the same message), while the caller keeps a reference of its own.
+// Under the happens-before race detector: the two concurrent wsPipe.Send calls do not write to anything they share;
+// each peer gets exactly one binary frame = header || body; what the caller's reference shows - header, body and the
+// spare capacity behind them - is unchanged afterwards.
+func VH23e_fanout() {
+	lab := "C11/ws-fanout"
+	vws.Reset()
+	protos := []string{"xsurveyor", "xstar", "xbus", "xpub", "surveyor", "star", "bus", "pub"}
+	proto := protos[verif.Choice("proto", len(protos))]
+	lab += "/" + proto
+	sock := vp.New(proto)
+	var sts []*vws.State
+	vws.DialOutcome = func(url string, offered []string) (*websocket.Conn, error) {
+		c, s := vws.NewConn("d")
+		sts = append(sts, s)
+		return c, nil
+	}
+	verif.Assert(sock.Dial("ws://127.0.0.1:80/a") == nil, lab+"/dial-a")
+	verif.Assert(sock.Dial("ws://127.0.0.1:81/b") == nil, lab+"/dial-b")
+	verif.Quiesce()
+	if len(sts) != 2 {
+		verif.Fail(lab + "/two-connections")
+		return
+	}
+	bl := verif.Choice("blen", 3) // 0, 1, 2 body bytes: header + body fit into the message's inline header buffer
+	body := verif.Bytes("body", bl)
+	m := mangos.NewMessage(0)
+	m.Body = append(m.Body, body...)
+	switch proto {
+	case "xsurveyor":
+		m.Header = append(m.Header, 0x80, 0, 0, 1)
+	case "xstar", "xbus":
+		m.Header = append(m.Header, 0, 0, 0, 0)
+	}
+	m.Clone() // the caller's own reference
+	held := m
+	hcap := append([]byte{}, m.Header[:cap(m.Header)]...)
+	bcopy := append([]byte{}, m.Body...)
+	hlen := len(m.Header)
+	verif.Assert(sock.SendMsg(m) == nil, lab+"/send")
+	verif.Quiesce()
+	for i, st := range sts {
+		verif.Assert(len(st.Frames) == 1, lab+"/not-exactly-one-frame-per-peer")
+		if len(st.Frames) == 1 {
+			f := st.Frames[0].Data
+			verif.Assert(len(f) >= bl && verif.BytesEq(f[len(f)-bl:], body), lab+"/frame-does-not-end-with-the-body")
+			if proto == "xbus" {
+				// raw BUS uses the header only to name the connection to skip; nothing of it goes on the wire
+				verif.Assert(len(f) == bl, lab+"/raw-frame-length")
+			} else if proto[0] == 'x' {
+				verif.Assert(len(f) == hlen+bl, lab+"/raw-frame-length")
+			}
+		}
+		_ = i
+	}
+	// the reference the caller kept
+	verif.Assert(len(held.Body) == bl && verif.BytesEq(held.Body, bcopy), lab+"/held-body-changed")
+	if proto[0] == 'x' {
+		verif.Assert(len(held.Header) == hlen, lab+"/held-header-length-changed")
+		verif.Assert(verif.BytesEq(held.Header[:cap(held.Header)][:len(hcap)], hcap), lab+"/bytes-behind-the-held-header-changed")
+	}
+	held.Free()
+	verif.Reach("fanout-checked")
+	sock.Close()
+	verif.Quiesce()
+}
